@@ -84,11 +84,12 @@ theorem rescanEnv_unchanged_identity (s : KState) (cfg : KConfig)
   simp only [hnil]
   rfl
 
-/-- `reset_interrupted_steps`: when no step is RUNNING or CHECKING and no attached step is FAILED
-(the state a successful build leaves), the database is unchanged. -/
+/-- `reset_interrupted_steps`: when no step is RUNNING or CHECKING and no step, attached or detached,
+is FAILED (the state a successful build with its cleanup leaves; since the repair afb3954 detached FAILED
+steps are made pending too), the database is unchanged. -/
 theorem resetInterrupted_quiescent_identity (s : KState)
     (hr : ∀ n ∈ s.nodes, n.key.kind = .step → n.sstate ≠ .running ∧ n.sstate ≠ .checking)
-    (hf : ∀ n ∈ s.nodes, n.key.kind = .step → n.detached = false → n.sstate ≠ .failed) :
+    (hf : ∀ n ∈ s.nodes, n.key.kind = .step → n.sstate ≠ .failed) :
     s.resetInterrupted = .ok s := by
   unfold KState.resetInterrupted
   have h1 : (s.nodes.filter fun n => decide (n.key.kind = .step ∧ n.sstate = .running)) = [] := by
@@ -101,11 +102,11 @@ theorem resetInterrupted_quiescent_identity (s : KState)
     intro n hn
     simp only [decide_eq_true_eq, not_and]
     exact fun hk => (hr n hn hk).2
-  have h3 : (s.nodes.filter fun n => decide (n.key.kind = .step ∧ (!n.detached) = true ∧ n.sstate = .failed)) = [] := by
+  have h3 : (s.nodes.filter fun n => decide (n.key.kind = .step ∧ n.sstate = .failed)) = [] := by
     rw [List.filter_eq_nil_iff]
     intro n hn
-    simp only [decide_eq_true_eq, not_and, Bool.not_eq_true']
-    exact fun hk hd => hf n hn hk hd
+    simp only [decide_eq_true_eq, not_and]
+    exact fun hk => hf n hn hk
   simp only [h1, h2, List.foldlM_nil, bind, Except.bind, pure, Except.pure, h3]
 
 /-! ## Requests that only touch cache flags -/
@@ -193,13 +194,13 @@ def restartRequests (s : KState) (cfg : KConfig) : M KState := do
   let c ← b.updateFileHashes [] .external
   c.reconcileTargets cfg
 
-/-- **noop_rebuild, kernel part**: on a quiescent database (no step RUNNING, CHECKING or attached
-FAILED; every recorded environment value current; no file hash changed) the requests of a restart
+/-- **noop_rebuild, kernel part**: on a quiescent database (no step RUNNING, CHECKING or FAILED, attached
+or detached; every recorded environment value current; no file hash changed) the requests of a restart
 change no persistent column: the result differs from the database before only in `_check_after`
 flags. -/
 theorem noop_restart_identity (s s' : KState) (cfg : KConfig)
     (hr : ∀ n ∈ s.nodes, n.key.kind = .step → n.sstate ≠ .running ∧ n.sstate ≠ .checking)
-    (hf : ∀ n ∈ s.nodes, n.key.kind = .step → n.detached = false → n.sstate ≠ .failed)
+    (hf : ∀ n ∈ s.nodes, n.key.kind = .step → n.sstate ≠ .failed)
     (henv : ∀ n ∈ s.nodes, n.key.kind = .step → n.detached = false → ∀ e ∈ n.envs, envValue cfg e.1 = e.2.1)
     (h : restartRequests s cfg = .ok s') : SameButAfter s s' := by
   unfold restartRequests at h
